@@ -96,7 +96,7 @@ def synthetic_inventory(rng: Rng) -> Tuple[bytes, List[str]]:
         if kind == 'py':
             lines.append(f'{name} py:{rng.choice(["class", "function", "method", "module", "attribute", "data", "exception"])} {rng.choice(["1", "-1", "0"])} api/{name}.html -')
         elif kind == 'space':
-            lines.append(f'ext spaced name {i} py:class 1 spaced{i}.html -')
+            lines.append(f'ext spaced name{i} py:class 1 spaced{i}.html -')
         elif kind == 'dollar':
             lines.append(f'{name} py:function 1 api.html#$ -')
         elif kind == 'nonpy':
